@@ -83,6 +83,7 @@ static void post_oracles(const Plan& p, const ExecOpts& eo, RunResult& r) {
           v.prop = eo.want("C18") ? "C18" : "C17"; v.oracle = pair ? "copy_or_source_differs_from_solo" : "task_result_differs_from_solo";
           v.detail = "object " + od.first + " observed different results when its task was interleaved with others than when the tasks ran one after the other";
           v.ctx["object"] = od.first.substr(0, 1);
+          { bool ex = false, cp = false; for (auto& o2 : p.ops) { if (o2.name == "copy") cp = true; for (auto& kv : o2.kv) if ((kv.first == "int:solvemode" && kv.second == "2") || ((kv.first == "real:feastol" || kv.first == "real:opttol") && kv.second == "0")) ex = true; } v.ctx["exact"] = ex ? "1" : "0"; v.ctx["copy"] = cp ? "1" : "0"; }
           bool dup = false; for (auto& x : r.viol) if (x.prop == v.prop && x.oracle == v.oracle) dup = true;
           if (!dup) r.viol.push_back(v);
         }
